@@ -159,6 +159,8 @@ def run(project, chk):
                         kind = "forwarded as min_contrast"
                 except ValueError:
                     pass
+            elif isinstance(par, ast.Dict) and any(v is n and isinstance(k, ast.Constant) and k.value == MIN for k, v in zip(par.keys, par.values)):
+                kind = "carried under its own key in an options mapping"
             elif isinstance(par, ast.Assign) and par.value is n and len(par.targets) == 1 and isinstance(par.targets[0], ast.Name) and par.targets[0].id in aliases:
                 kind = "alias"
             chk.check(kind is not None, "R4", f.short, norm_text(par if par is not None else n)[:120], project.loc(m, n),
@@ -169,7 +171,8 @@ def run(project, chk):
             if isinstance(n, ast.Name) and n.id == MIN and isinstance(n.ctx, ast.Store):
                 par = parents.get(n)
                 val = par.value if isinstance(par, ast.Assign) else None
-                okv = isinstance(val, ast.Constant) or (isinstance(val, ast.IfExp) and isinstance(val.body, ast.Constant) and isinstance(val.orelse, ast.Constant))
+                okv = isinstance(val, ast.Constant) or (isinstance(val, ast.IfExp) and isinstance(val.body, ast.Constant) and isinstance(val.orelse, ast.Constant)) \
+                    or (isinstance(val, ast.Subscript) and isinstance(val.value, ast.Name) and isinstance(val.slice, ast.Constant) and val.slice.value == MIN)      # options["min_contrast"]: handed through
                 chk.check(okv, "R4", f.short, norm_text(par if par is not None else n), project.loc(m, n), "min_contrast is only ever assigned literal defaults / table entries", how="value is a literal",
                           message="min_contrast is computed, not taken from the table", nontrivial=False)
         # target must not be built from min
